@@ -1205,38 +1205,38 @@ impl<const N: usize> udp__Session<N> {
     }
 }
 
-//@@ octo-squirrel-client/src/client/shadowsocks.rs:133-135  mod udp / fn new_key  sha=bd601572270d91f5
+//@@ octo-squirrel-client/src/client/shadowsocks.rs:138-140  mod udp / fn new_key  sha=bd601572270d91f5
 fn new_key(from: SocketAddr, verif_arg2: &Address) -> SocketAddr {
         from
     }
 
-//@@ octo-squirrel-client/src/client/shadowsocks.rs:137-140  mod udp / fn to_outbound_send  sha=31db5f18cb2ff9f4
+//@@ octo-squirrel-client/src/client/shadowsocks.rs:142-145  mod udp / fn to_outbound_send  sha=31db5f18cb2ff9f4
 fn to_outbound_send(item: DatagramPacket, proxy: SocketAddr) -> (DatagramPacket, SocketAddr) {
         let (content, target) = item;
         ((content, target), proxy)
     }
 
-//@@ octo-squirrel-client/src/client/shadowsocks.rs:142-145  mod udp / fn to_inbound_recv  sha=fc7358620b7919dc
+//@@ octo-squirrel-client/src/client/shadowsocks.rs:147-150  mod udp / fn to_inbound_recv  sha=fc7358620b7919dc
 fn to_inbound_recv(item: (DatagramPacket, SocketAddr), verif_arg2: &Address, sender: SocketAddr) -> (DatagramPacket, SocketAddr) {
         let (item, _) = item;
         (item, sender)
     }
 
-//@@ octo-squirrel-client/src/client/shadowsocks.rs:147-151  mod udp / struct DatagramPacketCodec  sha=a064ded263e50c89
+//@@ octo-squirrel-client/src/client/shadowsocks.rs:152-156  mod udp / struct DatagramPacketCodec  sha=a064ded263e50c89
 pub struct DatagramPacketCodec<'a, const N: usize> {
         codec: udp__SessionCodec<'a, N>,
         session: udp__Session<N>,
         filter: PacketWindowFilter,
     }
 
-//@@ octo-squirrel-client/src/client/shadowsocks.rs:153-157  mod udp / impl DatagramPacketCodec  sha=7d7a12f7c1d658b1
+//@@ octo-squirrel-client/src/client/shadowsocks.rs:158-162  mod udp / impl DatagramPacketCodec  sha=7d7a12f7c1d658b1
 impl<const N: usize> DatagramPacketCodec<'_, N> {
         fn new(codec: udp__SessionCodec<N>) -> DatagramPacketCodec<'_, N> {
             DatagramPacketCodec { codec, session: udp__Session::from(Mode::Client), filter: PacketWindowFilter::default() }
         }
     }
 
-//@@ octo-squirrel-client/src/client/shadowsocks.rs:159-166  mod udp / impl Encoder for DatagramPacketCodec  sha=d3cec9aeed301659
+//@@ octo-squirrel-client/src/client/shadowsocks.rs:164-171  mod udp / impl Encoder for DatagramPacketCodec  sha=d3cec9aeed301659
 impl<const N: usize> DatagramPacketCodec<'_, N> {
 
         fn encode(&mut self, verif_arg2: DatagramPacket, dst: &mut BytesMut) -> anyhow::Result<()> { let (content, addr) = verif_arg2;
@@ -1245,7 +1245,7 @@ impl<const N: usize> DatagramPacketCodec<'_, N> {
         }
     }
 
-//@@ octo-squirrel-client/src/client/shadowsocks.rs:168-190  mod udp / impl Decoder for DatagramPacketCodec  sha=b2d6ea905290fb89
+//@@ octo-squirrel-client/src/client/shadowsocks.rs:173-195  mod udp / impl Decoder for DatagramPacketCodec  sha=b2d6ea905290fb89
 impl<const N: usize> DatagramPacketCodec<'_, N> {
 
         fn decode(&mut self, src: &mut BytesMut) -> anyhow::Result<Option<DatagramPacket>> {
